@@ -128,26 +128,26 @@ theorem sunk_sunk (t : TreeImg) (xs : List Nat) (q : Nat) (qs : List Nat) (pid :
     sunk (sunk t xs [q] pid) (insNat q xs) qs pid = sunk t xs (q :: qs) pid := by
   simp [sunk, sinkXs, List.append_assoc]
 
-variable {p0 : PImg} {live : Nat} {allowed covered : List Nat}
+variable {p0 : PImg} {live lo : Nat} {allowed covered : List Nat}
 
 /-- **sinking without split**: block judgement, resulting scratch tree -/
 theorem pblk_sink (cfg : Cfg) :
     ∀ (qs : List Nat) (nd : Nat) (ps : PS) (t : TreeImg) (xs : List Nat) (pid : Nat),
-      SameKey p0.hdr ps.pm → ps.pm.nextPage = nd → Leaf1 t xs pid → xs.length + qs.length ≤ cfg.leafCap →
+      SameKey p0.hdr ps.pm → min ps.bm ps.pm.nextPage = nd → Leaf1 t xs pid → xs.length + qs.length ≤ cfg.leafCap →
       (t.key ≠ live ∨ (SortedNat xs ∧ (∀ x ∈ xs, x ∈ allowed) ∧ (∀ x ∈ covered, x ∈ xs) ∧ ∀ q ∈ qs, q ∈ allowed)) →
-      PBlk p0 live allowed covered nd ps (sinkA cfg ps t qs).1 (sinkEffs t.key pid xs qs) (nd + qs.length)
+      PBlk p0 live allowed covered lo nd ps (sinkA cfg ps t qs).1 (sinkEffs t.key pid xs qs) (nd + qs.length)
         (sinkA cfg ps t qs).2.1 ∧
       (sinkA cfg ps t qs).2.2 = sunk t xs qs pid
   | [], nd, ps, t, xs, pid, hsk, hnp, hl, _, _ => by
-    refine ⟨by simpa [sinkA, sinkEffs] using PBlk.nil (live := live) (allowed := allowed) (covered := covered) hsk hnp, ?_⟩
+    refine ⟨by simpa [sinkA, sinkEffs] using PBlk.nil (live := live) (lo := lo) (allowed := allowed) (covered := covered) hsk hnp, ?_⟩
     simp only [sinkA, sunk, sinkXs, List.reverse_nil, List.nil_append, ← hl.leaves]
   | q :: qs, nd, ps, t, xs, pid, hsk, hnp, hl, hcap, hsafe => by
     have hcap1 : xs.length < cfg.leafCap := by simp at hcap; omega
     have hone := sinkOneA_eq cfg ps t q xs pid hl hcap1
-    obtain ⟨ba, hpid, _⟩ := pblk_alloc (p0 := p0) (live := live) (allowed := allowed) (covered := covered) ps hsk hnp
-    have bb := pblk_write (p0 := p0) (live := live) (allowed := allowed) (covered := covered) ba.sk ba.np
+    obtain ⟨ba, hpid, _⟩ := pblk_alloc_eq (p0 := p0) (live := live) (lo := lo) (allowed := allowed) (covered := covered) ps hsk hnp
+    have bb := pblk_write (p0 := p0) (live := live) (lo := lo) (allowed := allowed) (covered := covered) ba.sk ba.np
       (.blob t.key q) (allocA ps).2.2 trivial
-    have hleaf : CEff p0 live allowed covered (nd + 1) (.leaf t.key 0 ((insNat q xs).map some) false pid) := by
+    have hleaf : CEff p0 live allowed covered lo (nd + 1) (.leaf t.key 0 ((insNat q xs).map some) false pid) := by
       rcases hsafe with h | ⟨h1, h2, h3, h4⟩
       · exact Or.inl h
       · refine Or.inr ⟨rfl, rfl, insNat q xs, rfl, sortedNat_insNat q xs h1, ?_, ?_⟩
@@ -157,7 +157,7 @@ theorem pblk_sink (cfg : Cfg) :
           · exact h2 y hy
         · intro y hy
           exact (mem_insNat q y xs).mpr (Or.inr (h3 y hy))
-    have bl := pblk_write (p0 := p0) (live := live) (allowed := allowed) (covered := covered) ba.sk ba.np
+    have bl := pblk_write (p0 := p0) (live := live) (lo := lo) (allowed := allowed) (covered := covered) ba.sk ba.np
       (.leaf t.key 0 ((insNat q xs).map some) false pid) pid hleaf
     have hsafe' : (sunk t xs [q] pid).key ≠ live ∨ (SortedNat (insNat q xs) ∧ (∀ x ∈ insNat q xs, x ∈ allowed) ∧
         (∀ x ∈ covered, x ∈ insNat q xs) ∧ ∀ q' ∈ qs, q' ∈ allowed) := by
